@@ -3,7 +3,7 @@
    given), model/FormatHtml.v, model/FormatIndent.v.  Proofs: proofs/OutStreamProofs.v,
    proofs/FormatReach.v, proofs/FormatProofs.v. *)
 From Emmet Require Import lib.Base model.MarkupConvert model.OutStream model.FormatHtml model.FormatIndent
-     proofs.OutStreamProofs proofs.FormatSteps proofs.FormatReach proofs.FormatProofs proofs.FormatChunks
+     model.FormatIndent proofs.OutStreamProofs proofs.FormatSteps proofs.FormatReach proofs.FormatProofs proofs.FormatChunks
      proofs.FormatTabstops.
 
 (* SPEC.  [chron o] = the callback invocations of a run in order; [text_of a] = what the
@@ -99,6 +99,16 @@ Theorem tabstops_in_order c children :
   fields_of (fchunks (html_format c children)) = carets 1 (sites_list c children).
 Proof. exact (tabstops_in_order_lemma c children). Qed.
 Print Assumptions tabstops_in_order.
+
+(* the same for the indent formatter (haml / pug / slim), ALL trees without explicit fields, ALL
+   option records and ALL indent-syntax profiles [o]:
+   iattr_site c a  = 1 iff the (secondary: not class / id, written) attribute a has an empty value and is
+                     not boolean;  isites c n = those of n + leaf_site n + isites of the children *)
+Theorem tabstops_in_order_indent c o children :
+  forallb no_fields children = true ->
+  fields_of (fchunks (indent_format c o children)) = carets 1 (isites_list c children).
+Proof. exact (indent_tabstops_in_order_lemma c o children). Qed.
+Print Assumptions tabstops_in_order_indent.
 
 (* explicit_fields_disjoint, three parts.  [push_tokens c v st] writes one value (text or
    attribute value) [v]; [tok_fields v] are its explicit fields (index, placeholder) in order;
